@@ -419,7 +419,8 @@ def run_case(ctx, case):
     s2 = io.StringIO()
     try:
         with DetRandom("c02-rewrite-%r" % (case,)):
-            bec.write_file(s2, [objs2["cust"], objs2["ecc"]])
+            enc2 = [objs2["cust"], objs2["ecc"]]
+            bec.write_file(s2, enc2)
         rr = Bec2File.read_file(io.StringIO(s2.getvalue()), [objs2[n] for n in decs])
     except Exception as e:
         o.cls = "read-raises"
@@ -428,4 +429,27 @@ def run_case(ctx, case):
     if rr.session_key != key2 or FX.view(rr.bf3file) != FX.view(r.bf3file):
         o.cls = "differs"
         o.viol("rewrite|differs", "the second write of the same file object (other session key, other encryptors) does not read back to that key and the same content")
+        return o
+    # ... and a third time with the SAME encryptor objects (the very same list) after the session key was assigned anew and the
+    # update block's version changed in place: what is written is the object's state at the time of writing
+    key3 = ctx.sym("c02-rewrite-key3", 15) + b"\x00"
+    bec.session_key = key3
+    version3 = version ^ 0x5A
+    for b in bec.auth_blocks.values():
+        if isinstance(b, UpdateAuthBlock):
+            b.version = version3
+    s3 = io.StringIO()
+    try:
+        with DetRandom("c02-rewrite3-%r" % (case,)):
+            bec.write_file(s3, enc2)
+        r3w = Bec2File.read_file(io.StringIO(s3.getvalue()), [objs2[n] for n in decs])
+    except Exception as e:
+        o.cls = "read-raises"
+        return o.viol("rewrite|same-encryptors|raises|%s" % type(e).__name__, "third write of the same file object with the same encryptor objects "
+                      "after assigning another session key / changing the update version in place, then reading it, raised %r" % e)
+    vers = [b.version for b in r3w.auth_blocks.values() if isinstance(b, UpdateAuthBlock)]
+    if r3w.session_key != key3 or FX.view(r3w.bf3file) != FX.view(r.bf3file) or (vers and vers != [version3]):
+        o.cls = "differs"
+        o.viol("rewrite|same-encryptors|differs", "third write of the same file object with the same encryptor objects: reads back with key %s (assigned %s), "
+               "update version %r (set in place: %02X)" % (r3w.session_key.hex(), key3.hex(), vers, version3))
     return o
